@@ -304,6 +304,20 @@ def r2_first_frame(ctx, rule='C08.R2'):
                 r = ctx.res.resolve_call(h, n.ast.iter)
                 if r[0] == 'repo' and r[1][0].qualname == TT:
                     hosts.append((h, gh, n))
+    # idiom-independent: whatever way the frame is found, what RUN stores as the failing traceback line must not be a frame's f_lineno
+    for n in rr.g.nodes:
+        if n.kind == 'stmt' and not n.dup and isinstance(n.ast, ast.Assign) and rr.in_loop(n) and any(field_name(t, 'self') == 'self.failed_tb_lineno' for t in n.ast.targets):
+            srcs = [n.ast.value]
+            if isinstance(n.ast.value, ast.Name):
+                srcs = [d.value for d in rr.rd.at(n, n.ast.value.id) if isinstance(d.value, ast.AST)]
+            for v in srcs:
+                if any(isinstance(x, ast.Attribute) and x.attr == 'f_lineno' for x in ast.walk(v)):
+                    rep.ob(rule, ctx.loc(rr.f, n.ast), ctx.src(n.ast), False,
+                           'the failing line is a frame\'s f_lineno: that is the line the frame executed LAST (a finally body, the re-raise), not the line the exception passed through '
+                           '(the traceback entry\'s tb_lineno)', anchor=RUN)
+    if not hosts:
+        walkers = [c for c in ast.walk(rr.f.module.tree) if isinstance(c, ast.Call) and ast.unparse(c.func) in ('traceback.walk_tb', 'walk_tb')]
+        need(not walkers, 'C08.R2: the traceback is walked with traceback.walk_tb: idiom not recognised')
     rep.floor(rule, 'traversals of a traceback', len(hosts), 1)
     for (h, gh, head) in hosts:
         anchor = h.qualname
